@@ -112,6 +112,7 @@ theorem replayChain_allwf (orig : Nat → Author) : ∀ (news : List (List Nat))
 /-- upstream commits brought in by a replay carry well-formed notes themselves -/
 def MidOK : ROp → Prop
   | .replay _ mid _ _ => AllNotesWF (mid.map (·.1)) (mid.map (·.2))
+  | .replayR _ _ mid _ _ => AllNotesWF (mid.map (·.1)) (mid.map (·.2))
   | .switchCarry l n _ => AllNotesWF l n
   | .switchMerge l n _ _ => AllNotesWF l n
   | _ => True
@@ -165,6 +166,14 @@ theorem rstep_allwf (r : RState) (op : ROp) (h : AllNotesWF r.st.log r.st.notes)
   | switchMerge l n hd ys => exact hm
   | aborted => exact h
   | typed who ids => exact h
+  | replayR res drop mid src news =>
+    have h0 := undoN_allwf drop r.st h
+    cases src with
+    | none =>
+      exact (replayChain_allwf _ news _).append (AllNotesWF.append hm h0)
+    | some ln =>
+      obtain ⟨l, n⟩ := ln
+      exact (replayChain_allwf _ news _).append (AllNotesWF.append hm h0)
 
 /-- **every note is well-formed against its commit, after every operation.** -/
 theorem notes_wf_history (r : RState) (ops : List ROp) (h : AllNotesWF r.st.log r.st.notes)
